@@ -22,6 +22,16 @@ CLAIMED = {
         design_ref='3/C14'),
 }
 
+CLAIMED['C20'] = dict(
+    text=('Prefetch.tla: TLC explores every interleaving of PrefetchIterator\'s producer and consumer (one action per code segment between '
+          'scheduling points) for all (length, failing position, buffer size) in bounds, with safety invariants, deadlock check and '
+          'termination under weak fairness; every complete behaviour is forced on the real class by a deterministic scheduler substituted '
+          'for `threading`, compared step by step; independently every schedule of the real code is enumerated (stateless DFS) and judged '
+          'on observables. HostBatch.tla: pad_shard_unpad arithmetic, scan_in_dim nested-loop reference (all axis tuples, keepdims), '
+          'prefetch_to_device deque machine; all cases replayed on the real functions for 1/2/4/8 forced host devices.'),
+    technique='TLA+ interleaving model + TLC (safety, deadlock, liveness); forced-schedule replay on real threads; exhaustive case replay',
+    design_ref='3/C20')
+
 NOT_YET = 'check not built yet in this round (planned, see DESIGN.md section 3); not claimed until its specification is bound to the code'
 ALL = ['C%02d' % i for i in range(1, 21)]
 
